@@ -108,6 +108,48 @@ func GenCommonVal(t *rapid.T, a, b TypeInfo) Val {
 			return FV(float64(f))
 		}
 	}
+	if (a.Kind == Float) != (b.Kind == Float) && rapid.IntRange(0, 3).Draw(t, "bigSel") == 0 {
+		// float <-> integer pair: integers far beyond 2^24 / 2^53 are representable in
+		// both types when their mantissa is short: m * 2^shift with m below the
+		// float's precision, inside the integer type's range.
+		ft, it := a, b
+		if b.Kind == Float {
+			ft, it = b, a
+		}
+		prec := 53
+		if ft.Bits == 32 {
+			prec = 24
+		}
+		ilo, ihi := IntRange(it)
+		top := it.Bits // value bits of the integer type
+		if it.Kind == Signed {
+			top--
+		}
+		mbits := rapid.IntRange(1, prec).Draw(t, "mantBits")
+		m := rapid.Uint64Range(1<<(mbits-1), 1<<mbits-1).Draw(t, "mant")
+		maxShift := top - mbits
+		if maxShift < 0 {
+			maxShift = 0
+			m >>= uint(mbits - top)
+			if m == 0 {
+				m = 1
+			}
+		}
+		shift := maxShift - rapid.IntRange(0, kitMin(maxShift, 3)).Draw(t, "shiftBelowTop")
+		u := m << uint(shift)
+		if u > ihi { // cannot happen (m < 2^mbits, shift <= top-mbits); stay representable if it ever does
+			u = uint64(1) << uint(top-1)
+		}
+		if it.Kind == Signed {
+			if rapid.Bool().Draw(t, "negBig") {
+				if v := -int64(u); v >= ilo {
+					return IV(v)
+				}
+			}
+			return IV(int64(u))
+		}
+		return UV(u)
+	}
 	lo, hi := commonIntRange(a, b)
 	if hi > math.MaxInt64 {
 		// both unsigned 64-bit
@@ -147,4 +189,11 @@ func GenCommonVals(t *rapid.T, a, b TypeInfo, n int) []Val {
 		out[i] = GenCommonVal(t, a, b)
 	}
 	return out
+}
+
+func kitMin(a, b int) int {
+	if a < b {
+		return a
+	}
+	return b
 }
